@@ -1,6 +1,11 @@
 /-
 The device aborts a host→device data phase (receive_sb_file abort path, C10): the operation fails with
 kStatus_AbortDataPhase, exactly the packets before the abort took effect, host and device are in step again.
+
+Structure: `Quiets` / `quiets_split` (the `k` packets before the abort, device side), the abort step of the device
+(`stepSerial_data_abort`, `stepHid_data_abort`) and ignored stray packets afterwards, host side primitives
+(`readFrameHeader_abort`, `writeData_serial_abort`, `writeData_hid_pending`, `readAny_zeroReport`),
+`sendData_abort` (all transport / `check_errors` cases), `dataOutCmd_abort`, `abort_refines`.
 -/
 import SpsdkVerif.Model.Mboot
 import SpsdkVerif.Proofs.Mboot
@@ -9,6 +14,515 @@ import SpsdkVerif.Proofs.MbootRefine
 namespace SpsdkVerif.Mboot
 open SpsdkVerif H
 
+/-! ### device side -/
+
+/-- the device takes the data packets `cs` silently (ACK only / no report) -/
+inductive Quiets : Dev → List Bytes → Dev → Prop
+  | nil (d : Dev) : Quiets d [] d
+  | cons (d : Dev) (c : Bytes) (cs : List Bytes) (d1 d' : Dev) :
+      d.abortsNow = false → d.acceptData c = some (d1, none) → Quiets d1 cs d' → Quiets d (c :: cs) d'
+
+theorem abortsNow_recv (d : Dev) (k tag a r fs : Nat) (hab : d.abortAfter = some k) (hph : d.phase = .recv tag a r fs) :
+    d.abortsNow = (d.pktCount == k) := by
+  unfold Dev.abortsNow
+  rw [hab, hph]
+
+theorem store_step (d : Dev) (tag a : Nat) (c l : Bytes) (k : Nat) (ph : Phase)
+    (hmem : tag = Spec.cWriteMemory → a ≤ d.mem.length) :
+    Dev.store { d.store tag a c 1 with phase := ph } tag (a + c.length) l k =
+      { d.store tag a (c ++ l) (1 + k) with phase := ph } := by
+  simp only [Dev.store]
+  by_cases ht : tag = Spec.cWriteMemory
+  · have := hmem ht
+    simp only [ht, if_true]
+    rw [splice_splice _ _ _ _ this]
+    simp only [Nat.add_assoc]
+  · simp only [ht, if_false]
+    by_cases hk : tag = Spec.cKeyProvisioning
+    · simp only [hk, if_true, List.append_assoc, Nat.add_assoc]
+    · simp only [hk, if_false, List.append_assoc, Nat.add_assoc]
+
+theorem store_zero (d : Dev) (tag a : Nat) (h : tag = Spec.cWriteMemory → a ≤ d.mem.length) : d.store tag a [] 0 = d := by
+  cases d
+  simp only [Dev.store, splice]
+  split
+  · simp
+  · split <;> simp
+
+theorem store_pktCount (d : Dev) (tag a : Nat) (c : Bytes) (k : Nat) :
+    (d.store tag a c k).pktCount = d.pktCount + k := by
+  simp only [Dev.store]
+  split
+  · rfl
+  · split <;> rfl
+
+theorem store_imageMode (d : Dev) (tag a : Nat) (c : Bytes) (k : Nat) :
+    (d.store tag a c k).imageMode = d.imageMode := by
+  simp only [Dev.store]
+  split
+  · rfl
+  · split <;> rfl
+
+theorem split_ne_nil_of_lt {mp : Nat} {l : Bytes} {j : Nat} (h : j < (split mp l).length) : l ≠ [] := by
+  intro e; subst e; rw [split_nil] at h; simp at h
+
+/-- the first `j` packets of a data phase whose abort comes later -/
+theorem quiets_split (mp : Nat) (hmp : 0 < mp) (tag fs k : Nat) :
+    ∀ (j : Nat) (l : Bytes) (d : Dev) (a : Nat), d.maxPacket = mp → d.abortAfter = some k → d.pktCount + j ≤ k →
+      d.phase = .recv tag a l.length fs → j < (split mp l).length →
+      (tag = Spec.cWriteMemory → a + l.length ≤ d.mem.length) →
+      Quiets d ((split mp l).take j)
+        { d.store tag a ((split mp l).take j).flatten j with
+          phase := .recv tag (a + ((split mp l).take j).flatten.length) (l.length - ((split mp l).take j).flatten.length) fs } := by
+  intro j
+  induction j with
+  | zero =>
+    intro l d a _ _ _ hph _ hmem
+    simp only [List.take_zero, List.flatten_nil, List.length_nil, Nat.add_zero, Nat.sub_zero]
+    rw [store_zero d tag a (fun ht => by have := hmem ht; omega), ← hph]
+    exact Quiets.nil d
+  | succ j ih =>
+    intro l d a hdmp hab hcnt hph hj hmem
+    have hl := split_ne_nil_of_lt hj
+    rw [split_cons mp hmp l hl] at hj ⊢
+    simp only [List.length_cons] at hj
+    have hj' : j < (split mp (l.drop mp)).length := by omega
+    have hd0 := split_ne_nil_of_lt hj'
+    have hlong : mp < l.length := by
+      rcases Nat.lt_or_ge mp l.length with h | h
+      · exact h
+      · exact absurd (List.drop_of_length_le h) hd0
+    have hlen : (l.take mp).length = mp := by simp; omega
+    have hdl : (l.drop mp).length = l.length - mp := by simp
+    have hc0 : l.take mp ≠ [] := by
+      intro e; have := congrArg List.length e; rw [hlen] at this; simp at this; omega
+    have habn : d.abortsNow = false := by
+      rw [abortsNow_recv d k tag a l.length fs hab hph]
+      simp; omega
+    have hacc := acceptData_more d tag a l.length fs (l.take mp) hph hc0 (by omega) (by omega)
+    simp only [List.take_succ_cons, List.flatten_cons, List.length_append]
+    refine Quiets.cons d _ _ _ _ habn hacc ?_
+    have hrec := ih (l.drop mp)
+      { d.store tag a (l.take mp) 1 with phase := .recv tag (a + (l.take mp).length) (l.length - (l.take mp).length) fs }
+      (a + (l.take mp).length) (by rw [← hdmp]; exact store_maxPacket d tag a _ 1)
+      (by rw [← hab]; exact store_abortAfter d tag a _ 1)
+      (by show (d.store tag a (l.take mp) 1).pktCount + j ≤ k; rw [store_pktCount]; omega)
+      (by simp only [hlen, hdl]) hj' (by
+        intro ht
+        have := hmem ht
+        simp only [Dev.store, ht, if_true, hlen, hdl]
+        rw [splice_length _ _ _ (by omega)]
+        omega)
+    rw [store_step d tag a _ _ _ _ (fun ht => by have := hmem ht; omega)] at hrec
+    have e1 : a + (l.take mp).length + ((split mp (l.drop mp)).take j).flatten.length
+        = a + ((l.take mp).length + ((split mp (l.drop mp)).take j).flatten.length) := by omega
+    have e2 : (l.drop mp).length - ((split mp (l.drop mp)).take j).flatten.length
+        = l.length - ((l.take mp).length + ((split mp (l.drop mp)).take j).flatten.length) := by
+      rw [hdl, hlen]; omega
+    rw [e1, e2, Nat.add_comm 1 j] at hrec
+    exact hrec
+
+theorem refuseData_recv (d : Dev) (tag a r fs : Nat) (hph : d.phase = .recv tag a r fs) :
+    d.refuseData = ({ d with phase := .idle }, genericResp Spec.stAbortDataPhase tag) := by
+  unfold Dev.refuseData
+  rw [hph]
+
+theorem stepSerial_data_abort (d : Dev) (c : Bytes) (hlen : c.length < 65536) (hab : d.abortsNow = true) :
+    d.stepSerial (mkFrame Spec.fData c) = (d.refuseData.1, abortFrame ++ mkFrame Spec.fCmd d.refuseData.2) := by
+  have h1 : mkFrame Spec.fData c ≠ pingFrame := by
+    intro e; have := congrArg List.length e; rw [mkFrame_length] at this; simp [pingFrame] at this; omega
+  have h2 : mkFrame Spec.fData c ≠ ackFrame := by
+    intro e; have := congrArg List.length e; rw [mkFrame_length] at this; simp [ackFrame] at this; omega
+  have h3 := frame_roundtrip' Spec.fData c [] (by decide) hlen
+  rw [List.append_nil] at h3
+  unfold Dev.stepSerial
+  rw [if_neg h1, if_neg h2, h3]
+  simp only [if_true]
+  rw [if_neg (by decide)]
+  simp only [hab, if_true]
+
+theorem stepHid_data_abort (d : Dev) (c : Bytes) (hlen : c.length < 65536) (hab : d.abortsNow = true) :
+    d.stepHid (mkReport Spec.ridDataOut c) =
+      (d.refuseData.1, [padTo d.hidPad (mkReport Spec.ridCmdIn []), padTo d.hidPad (mkReport Spec.ridCmdIn d.refuseData.2)]) := by
+  have h3 := hid_roundtrip' Spec.ridDataOut c [] (by decide) hlen
+  rw [List.append_nil] at h3
+  unfold Dev.stepHid
+  simp only [h3, if_true]
+  rw [if_neg (by decide)]
+  simp only [hab, if_true]
+
+theorem stepHid_data_ignored (d : Dev) (c : Bytes) (hlen : c.length < 65536) (hph : d.phase = .idle)
+    (him : d.imageMode = false) : d.stepHid (mkReport Spec.ridDataOut c) = (d, []) := by
+  have h3 := hid_roundtrip' Spec.ridDataOut c [] (by decide) hlen
+  rw [List.append_nil] at h3
+  have hab : d.abortsNow = false := by unfold Dev.abortsNow; rw [hph]
+  have hacc : d.acceptData c = none := by unfold Dev.acceptData; rw [hph]
+  have hs : d.strayData c = none := by unfold Dev.strayData; simp [him]
+  unfold Dev.stepHid
+  simp only [h3, if_true]
+  rw [if_neg (by decide)]
+  simp only [hab, hacc, hs, Bool.false_eq_true, if_false, hph]
+
+/-! ### host side -/
+
+theorem readFrameHeader_abort (exp : Option Nat) (h : Host) (b0 b1 : UInt8) (rest : Bytes)
+    (hb0 : b0.toNat = Spec.startByte) (hb1 : b1.toNat = Spec.fAbort) (hrx : h.rxB = b0 :: b1 :: rest) :
+    readFrameHeader exp h = (.error .abort, (h.rd 1 (b1 :: rest)).rd 1 rest) := by
+  have e1 : devRead 1 h = (.ok [b0], h.rd 1 (b1 :: rest)) :=
+    devRead_ok 1 h [_] _ (by omega) rfl hrx
+  have e2 : devRead 1 (h.rd 1 (b1 :: rest)) = (.ok [b1], (h.rd 1 (b1 :: rest)).rd 1 rest) :=
+    devRead_ok 1 _ [_] _ (by omega) rfl rfl
+  have e0 : waitForData h = (.ok Spec.startByte, h.rd 1 (b1 :: rest)) := by
+    unfold waitForData
+    rw [hrx]
+    simp only [List.length_cons, waitGo]
+    rw [bind_ok e1]
+    simp [fromLe, hb0]
+  unfold readFrameHeader
+  rw [bind_ok e0]
+  simp [bind_run, e2, fromLe, hb1, Spec.startByte, Spec.fAck, Spec.fAbort]
+
+theorem writeData_serial_abort {h1 h0 : Host} {st d r} (hI : h1.Is h0 st d [] r) (htr : h0.cfg.tr = .serial)
+    (ab : Bool) (c : Bytes) (hlen : c.length < 65536) (d' : Dev) (out : Bytes)
+    (hstep : d.stepSerial (mkFrame Spec.fData c) = (d', abortFrame ++ out)) :
+    ∃ h2, writeData ab c h1 = (.error .abort, h2) ∧ h2.Is h0 st d' out r := by
+  have htr1 : h1.cfg.tr = .serial := by rw [hI.cfg, htr]
+  have hw := hI.write_serial htr (mkFrame Spec.fData c)
+  rw [hstep] at hw
+  simp only [List.nil_append] at hw
+  refine ⟨_, ?_, (hw.rd 1 (UInt8.ofNat Spec.fAbort :: out)).rd 1 out⟩
+  unfold writeData
+  rw [bind_ok (get_run _)]
+  simp only [htr1]
+  unfold serialSendFrame
+  rw [if_neg (by omega), bind_ok (devWrite_run _ _)]
+  rw [bind_err (readFrameHeader_abort (some Spec.fAck) _ _ (UInt8.ofNat Spec.fAbort) out b0_toNat (by decide)
+    (by rw [hw.rxB]; rfl))]
+
+theorem sendChunks_cons_err {ab : Bool} {c : Bytes} {cs : List Bytes} {sent : Nat} {h h' : Host} {e : HErr}
+    (he : writeData ab c h = (.error e, h')) :
+    sendChunks ab (c :: cs) sent h = (.ok (sent, some e), h') := by
+  rw [sendChunks]
+  simp only [he]
+
+/-- one silently accepted data packet, either transport -/
+theorem writeData_quiet {h1 h0 : Host} {st d} (hI : h1.Is h0 st d [] []) (ab : Bool) (c : Bytes)
+    (hlen : c.length < 65536) (hab : d.abortsNow = false) (d1 : Dev) (hacc : d.acceptData c = some (d1, none)) :
+    ∃ h2, writeData ab c h1 = (.ok (), h2) ∧ h2.Is h0 st d1 [] [] := by
+  cases htr : h0.cfg.tr with
+  | serial =>
+    exact writeData_serial hI htr ab c hlen d1 [] (stepSerial_data_acc d c hlen hab _ _ hacc)
+  | hid =>
+    obtain ⟨h2, e2, hI2⟩ := writeData_hid hI htr ab c hlen
+    rw [stepHid_data_acc d c hlen hab _ _ hacc] at hI2
+    exact ⟨h2, e2, hI2⟩
+
+theorem sendChunks_quiets {h0 : Host} (ab : Bool) {d : Dev} {cs : List Bytes} {d' : Dev} (hQ : Quiets d cs d')
+    (rest : List Bytes) :
+    ∀ (h1 : Host) (sent st : Nat), (∀ c ∈ cs, c.length < 65536) → h1.Is h0 st d [] [] →
+      ∃ h2, sendChunks ab (cs ++ rest) sent h1 = sendChunks ab rest (sent + (cs.map List.length).sum) h2 ∧
+        h2.Is h0 st d' [] [] := by
+  induction hQ with
+  | nil d =>
+    intro h1 sent st _ hI
+    exact ⟨h1, by simp, hI⟩
+  | cons d c cs d1 d' hab hacc _ ih =>
+    intro h1 sent st hlen hI
+    have hc := hlen c (by simp)
+    obtain ⟨h2, e2, hI2⟩ := writeData_quiet hI ab c hc hab d1 hacc
+    obtain ⟨h3, e3, hI3⟩ := ih h2 (sent + c.length) st (fun x hx => hlen x (by simp [hx])) hI2
+    refine ⟨h3, ?_, hI3⟩
+    rw [List.cons_append, sendChunks_cons_ok e2, e3]
+    simp [Nat.add_assoc]
+
+theorem writeData_hid_false {h1 h0 : Host} {st d b r} (hI : h1.Is h0 st d b r) (htr : h0.cfg.tr = .hid)
+    (c : Bytes) (hlen : c.length < 65536) :
+    ∃ h2, writeData false c h1 = (.ok (), h2) ∧
+      h2.Is h0 st (d.stepHid (mkReport Spec.ridDataOut c)).1 b (r ++ (d.stepHid (mkReport Spec.ridDataOut c)).2) := by
+  have htr1 : h1.cfg.tr = .hid := by rw [hI.cfg, htr]
+  refine ⟨h1.write (mkReport Spec.ridDataOut c), ?_, hI.write_hid htr (mkReport Spec.ridDataOut c)⟩
+  unfold writeData
+  rw [bind_ok (get_run _)]
+  simp only [htr1]
+  unfold hidWriteData
+  rw [if_neg (by omega)]
+  rfl
+
+/-- `check_errors`: a report is pending before the next data packet is written -/
+theorem writeData_hid_pending {h1 h0 : Host} {st d b} (raw : Bytes) (rs : List Bytes)
+    (hI : h1.Is h0 st d b (raw :: rs)) (htr : h0.cfg.tr = .hid) (hraw : raw.isEmpty = false)
+    (c : Bytes) (hlen : c.length < 65536) :
+    writeData true c h1 = (.error .abort, h1.rdR rs) := by
+  have htr1 : h1.cfg.tr = .hid := by rw [hI.cfg, htr]
+  have e1 : hidDevRead h1 = (.ok raw, h1.rdR rs) := by
+    unfold hidDevRead
+    simp only [hI.rxR, hraw, Bool.false_eq_true, if_false, Host.rdR]
+  have e2 : (do let r ← hidDevRead; pure (some r) : H (Option Bytes)) h1 = (.ok (some raw), h1.rdR rs) := by
+    rw [bind_ok e1]; rfl
+  unfold writeData
+  rw [bind_ok (get_run _)]
+  simp only [htr1]
+  unfold hidWriteData
+  rw [if_neg (by omega)]
+  simp only [if_true]
+  rw [bind_ok (catch_ok e2)]
+  rfl
+
+/-- data packets after the abort: the idle device ignores them -/
+theorem sendChunks_ignored {h0 : Host} (htr : h0.cfg.tr = .hid) (d : Dev) (hph : d.phase = .idle)
+    (him : d.imageMode = false) (R : List Bytes) :
+    ∀ (cs : List Bytes) (h1 : Host) (sent st : Nat), (∀ c ∈ cs, c.length < 65536) → h1.Is h0 st d [] R →
+      ∃ h2, sendChunks false cs sent h1 = (.ok (sent + (cs.map List.length).sum, none), h2) ∧ h2.Is h0 st d [] R := by
+  intro cs
+  induction cs with
+  | nil =>
+    intro h1 sent st _ hI
+    exact ⟨h1, by simp [sendChunks], hI⟩
+  | cons c cs ih =>
+    intro h1 sent st hlen hI
+    have hc := hlen c (by simp)
+    obtain ⟨h2, e2, hI2⟩ := writeData_hid_false hI htr c hc
+    rw [stepHid_data_ignored d c hc hph him, List.append_nil] at hI2
+    obtain ⟨h3, e3, hI3⟩ := ih h2 (sent + c.length) st (fun x hx => hlen x (by simp [hx])) hI2
+    refine ⟨h3, ?_, hI3⟩
+    rw [sendChunks_cons_ok e2, e3]
+    simp [Nat.add_assoc]
+
+theorem zeroReport_ne_nil (k : Nat) : (padTo k (mkReport Spec.ridCmdIn [])).isEmpty = false := by
+  simp [padTo, mkReport]
+
+/-- the zero-length report = abort -/
+theorem readAny_zeroReport {h1 h0 : Host} {st d b} (k : Nat) (rs : List Bytes)
+    (hI : h1.Is h0 st d b (padTo k (mkReport Spec.ridCmdIn []) :: rs)) (htr : h0.cfg.tr = .hid) :
+    readAny h1 = (.error .abort, h1.rdR rs) := by
+  have e1 : hidDevRead h1 = (.ok (padTo k (mkReport Spec.ridCmdIn [])), h1.rdR rs) := by
+    unfold hidDevRead
+    simp only [hI.rxR, zeroReport_ne_nil, Bool.false_eq_true, if_false, Host.rdR]
+  have e2 : hidParseFrame (padTo k (mkReport Spec.ridCmdIn [])) = .error .abort := by
+    simp [padTo, mkReport, le, hidParseFrame, fromLe]
+  rw [readAny_hid h1 (by rw [hI.cfg, htr])]
+  unfold hidRead
+  rw [bind_ok e1, lift_run, e2]
+
+theorem FinalPending.of_serial {h1 h0 : Host} {st : Nat} {d : Dev} {fin : Bytes} (htr : h0.cfg.tr = .serial)
+    (hI : h1.Is h0 st d (mkFrame Spec.fCmd fin) []) : FinalPending h1 h0 st d fin := by
+  unfold FinalPending; rw [htr]; exact hI
+
+theorem FinalPending.of_hid {h1 h0 : Host} {st : Nat} {d : Dev} {fin : Bytes} (htr : h0.cfg.tr = .hid) (k : Nat)
+    (hI : h1.Is h0 st d [] [padTo k (mkReport Spec.ridCmdIn fin)]) : FinalPending h1 h0 st d fin := by
+  unfold FinalPending; rw [htr]; exact ⟨k, hI⟩
+
+theorem sendData_fail_some {h1 h2 h3 : Host} (cs : List Bytes) (hop : h1.opened = true) (sent : Nat) (e : HErr)
+    (rr : Resp) (hst : rr.status ≠ 0)
+    (e1 : sendChunks h1.eda cs 0 h1 = (.ok (sent, some e), h2))
+    (e2 : sendDataHandler e h2 = (.ok (.resp rr), h3)) :
+    sendData cs h1 =
+      ((if h1.cfg.cmdExc then .error (.cmd rr.status) else .ok false), { h3 with status := rr.status }) := by
+  unfold sendData
+  rw [bind_ok (requireOpen_ok h1 hop), bind_ok (get_run _)]
+  simp only []
+  rw [bind_ok e1]
+  simp only []
+  rw [bind_ok e2]
+  simp only []
+  rw [bind_ok (setStatus_run _ _)]
+  have : rr.status ≠ Spec.stSuccess := hst
+  simp only [this, ne_eq, not_false_eq_true, if_true]
+  cases h1.cfg.cmdExc <;> rfl
+
+theorem sendData_fail_none {h1 h2 h3 : Host} (cs : List Bytes) (hop : h1.opened = true) (sent : Nat)
+    (rr : Resp) (hst : rr.status ≠ 0)
+    (e1 : sendChunks h1.eda cs 0 h1 = (.ok (sent, none), h2))
+    (e2 : catch_ readAny sendDataHandler h2 = (.ok (.resp rr), h3)) :
+    sendData cs h1 =
+      ((if h1.cfg.cmdExc then .error (.cmd rr.status) else .ok false), { h3 with status := rr.status }) := by
+  unfold sendData
+  rw [bind_ok (requireOpen_ok h1 hop), bind_ok (get_run _)]
+  simp only []
+  rw [bind_ok e1]
+  simp only []
+  rw [bind_ok e2]
+  simp only []
+  rw [bind_ok (setStatus_run _ _)]
+  have : rr.status ≠ Spec.stSuccess := hst
+  simp only [this, ne_eq, not_false_eq_true, if_true]
+  cases h1.cfg.cmdExc <;> rfl
+
+theorem sendDataHandler_abort (h : Host) : sendDataHandler .abort h = readAny h := by
+  unfold sendDataHandler
+  rw [if_neg (by decide), if_pos (by decide)]
+
+theorem store_phase (d : Dev) (tag a : Nat) (c : Bytes) (k : Nat) (ph : Phase) :
+    Dev.store { d with phase := ph } tag a c k = { d.store tag a c k with phase := ph } := by
+  simp only [Dev.store]
+  split
+  · rfl
+  · split <;> rfl
+
+/-- `_send_data` against a device that aborts the data phase at its `(k+1)`-th packet -/
+theorem sendData_abort {h2 h0 : Host} (hop : h0.opened = true) (mp : Nat) (hmp : 0 < mp) (hmp2 : mp < 65536)
+    (d1 : Dev) (tag a k : Nat) (data : Bytes) (htag : tag < 4294967296)
+    (hmp1 : d1.maxPacket = mp) (hab : d1.abortAfter = some k) (hpc : d1.pktCount = 0) (him : d1.imageMode = false)
+    (hk : k < (split mp data).length)
+    (hmem : tag = Spec.cWriteMemory → a + data.length ≤ d1.mem.length)
+    (hI : h2.Is h0 0 { d1 with phase := .recv tag a data.length 0 } [] []) :
+    ∃ h3, sendData (split mp data) h2 =
+        ((if h0.cfg.cmdExc then .error (.cmd Spec.stAbortDataPhase) else .ok false), h3) ∧
+      h3.Is h0 Spec.stAbortDataPhase { d1.store tag a ((split mp data).take k).flatten k with phase := .idle } [] [] := by
+  have hparse := genericResp_parse Spec.stAbortDataPhase tag (by decide) htag
+  obtain ⟨rr, hrr⟩ : ∃ rr : Resp,
+      rr = { kind := .generic, tag := Spec.rGeneric, pc := 2, status := Spec.stAbortDataPhase, cmdTag := tag } :=
+    ⟨_, rfl⟩
+  rw [← hrr] at hparse
+  have hrs : rr.status = Spec.stAbortDataPhase := by rw [hrr]
+  have hne : rr.status ≠ 0 := by rw [hrs]; decide
+  have hfin0 := genericResp_ne_nil Spec.stAbortDataPhase tag
+  have hfinl : (genericResp Spec.stAbortDataPhase tag).length < 65536 := by rw [genericResp_length]; omega
+  have hlen : ∀ c ∈ split mp data, c.length < 65536 := by
+    intro c hc; have := (split_chunks' mp hmp data c hc).1; omega
+  -- the chunk list: `k` quiet packets, the aborted one, the rest
+  obtain ⟨cs1, hcs1⟩ : ∃ cs1, cs1 = (split mp data).take k := ⟨_, rfl⟩
+  obtain ⟨c, hc⟩ : ∃ c, c = (split mp data)[k] := ⟨_, rfl⟩
+  obtain ⟨cs2, hcs2⟩ : ∃ cs2, cs2 = (split mp data).drop (k + 1) := ⟨_, rfl⟩
+  have hsplit : split mp data = cs1 ++ c :: cs2 := by
+    rw [hcs1, hc, hcs2, ← List.drop_eq_getElem_cons hk, List.take_append_drop]
+  have hlen1 : ∀ x ∈ cs1, x.length < 65536 := fun x hx => hlen x (by rw [hsplit]; simp [hx])
+  have hlenc : c.length < 65536 := hlen c (by rw [hsplit]; simp)
+  have hlen2 : ∀ x ∈ cs2, x.length < 65536 := fun x hx => hlen x (by rw [hsplit]; simp [hx])
+  -- device after the quiet prefix
+  have hQ := quiets_split mp hmp tag 0 k k data { d1 with phase := .recv tag a data.length 0 } a hmp1 hab
+    (by show d1.pktCount + k ≤ k; omega) rfl hk hmem
+  rw [← hcs1, store_phase] at hQ
+  obtain ⟨dk, hdk⟩ : ∃ dk : Dev, dk = { d1.store tag a cs1.flatten k with
+      phase := .recv tag (a + cs1.flatten.length) (data.length - cs1.flatten.length) 0 } := ⟨_, rfl⟩
+  have hQ' : Quiets { d1 with phase := .recv tag a data.length 0 } cs1 dk := by rw [hdk]; exact hQ
+  have hdkph : dk.phase = .recv tag (a + cs1.flatten.length) (data.length - cs1.flatten.length) 0 := by rw [hdk]
+  have hdkaa : dk.abortAfter = some k := by
+    rw [hdk]
+    show (d1.store tag a cs1.flatten k).abortAfter = _
+    rw [store_abortAfter]; exact hab
+  have hdkpc : dk.pktCount = k := by
+    rw [hdk]
+    show (d1.store tag a cs1.flatten k).pktCount = k
+    rw [store_pktCount, hpc]; simp
+  have hdkab : dk.abortsNow = true := by
+    rw [abortsNow_recv dk k _ _ _ _ hdkaa hdkph, hdkpc]; simp
+  have hrefuse := refuseData_recv dk _ _ _ _ hdkph
+  have hdA : ({ dk with phase := .idle } : Dev) = { d1.store tag a cs1.flatten k with phase := .idle } := by rw [hdk]
+  have hdAim : ({ dk with phase := .idle } : Dev).imageMode = false := by
+    rw [hdA]; show (d1.store tag a cs1.flatten k).imageMode = false; rw [store_imageMode]; exact him
+  obtain ⟨h3, e3, hI3⟩ := sendChunks_quiets (h0 := h0) h2.eda hQ' (c :: cs2) h2 0 0 hlen1 hI
+  rw [← hsplit] at e3
+  have hop2 : h2.opened = true := by rw [hI.opened, hop]
+  have hce : h2.cfg.cmdExc = h0.cfg.cmdExc := by rw [hI.cfg]
+  rw [← hcs1, ← hdA, ← hce, ← hrs]
+  cases htr : h0.cfg.tr with
+  | serial =>
+    have hstep := stepSerial_data_abort dk c hlenc hdkab
+    rw [hrefuse] at hstep
+    obtain ⟨h4, e4, hI4⟩ := writeData_serial_abort hI3 htr h2.eda c hlenc _ _ hstep
+    obtain ⟨h5, e5, hI5⟩ := readAny_final (FinalPending.of_serial htr hI4) rfl rr hparse hfin0 hfinl
+    refine ⟨_, ?_, hI5.setStatus _⟩
+    exact sendData_fail_some _ hop2 _ .abort rr hne (e3.trans (sendChunks_cons_err e4))
+      ((sendDataHandler_abort h4).trans e5)
+  | hid =>
+    have hstep := stepHid_data_abort dk c hlenc hdkab
+    rw [hrefuse] at hstep
+    cases heda : h2.eda with
+    | false =>
+      rw [heda] at e3
+      obtain ⟨h4, e4, hI4⟩ := writeData_hid_false hI3 htr c hlenc
+      rw [hstep, List.nil_append] at hI4
+      obtain ⟨h5, e5, hI5⟩ := sendChunks_ignored htr { dk with phase := .idle } rfl hdAim _ cs2 h4
+        (0 + (cs1.map List.length).sum + c.length) 0 hlen2 hI4
+      have e6 := readAny_zeroReport _ _ hI5 htr
+      obtain ⟨h7, e7, hI7⟩ := readAny_final (FinalPending.of_hid htr _ (hI5.rdR _)) rfl rr hparse hfin0 hfinl
+      refine ⟨_, ?_, hI7.setStatus _⟩
+      refine sendData_fail_none (h2 := h5) _ hop2
+        (0 + (cs1.map List.length).sum + c.length + (cs2.map List.length).sum) rr hne ?_ ?_
+      · rw [heda, e3, sendChunks_cons_ok e4, e5]
+      · rw [catch_err e6, sendDataHandler_abort]; exact e7
+    | true =>
+      rw [heda] at e3
+      obtain ⟨h4, e4, hI4⟩ := writeData_hid hI3 htr true c hlenc
+      rw [hstep] at hI4
+      cases cs2 with
+      | nil =>
+        have e6 := readAny_zeroReport _ _ hI4 htr
+        obtain ⟨h7, e7, hI7⟩ := readAny_final (FinalPending.of_hid htr _ (hI4.rdR _)) rfl rr hparse hfin0 hfinl
+        refine ⟨_, ?_, hI7.setStatus _⟩
+        refine sendData_fail_none (h2 := h4) _ hop2 (0 + (cs1.map List.length).sum + c.length) rr hne ?_ ?_
+        · rw [heda, e3, sendChunks_cons_ok e4]; rfl
+        · rw [catch_err e6, sendDataHandler_abort]; exact e7
+      | cons c2 cs3 =>
+        have hc2 : c2.length < 65536 := hlen2 c2 (by simp)
+        have e5 := writeData_hid_pending _ _ hI4 htr (zeroReport_ne_nil _) c2 hc2
+        obtain ⟨h7, e7, hI7⟩ := readAny_final (FinalPending.of_hid htr _ (hI4.rdR _)) rfl rr hparse hfin0 hfinl
+        refine ⟨_, ?_, hI7.setStatus _⟩
+        refine sendData_fail_some (h2 := h4.rdR [padTo dk.hidPad (mkReport Spec.ridCmdIn (genericResp Spec.stAbortDataPhase tag))]) _ hop2 (0 + (cs1.map List.length).sum + c.length) .abort rr hne ?_ ((sendDataHandler_abort _).trans e7)
+        · rw [heda, e3, sendChunks_cons_ok e4, sendChunks_cons_err e5]
+
+/-! ### the three operations -/
+
+theorem abortDev_write (d : Dev) (h : d.phase = .idle) (a : Nat) (pre : Bytes) (k : Nat) :
+    ({ d.next.store Spec.cWriteMemory a pre k with phase := .idle } : Dev) =
+      { (abortPrefix d Spec.cWriteMemory a pre) with ncmd := d.ncmd + 1, pktCount := k } := by
+  cases d
+  simp only at h
+  subst h
+  simp [Dev.store, Dev.next, abortPrefix]
+
+theorem abortDev_sb (d : Dev) (h : d.phase = .idle) (pre : Bytes) (k : Nat) :
+    ({ Dev.store { d.next with sb := [] } Spec.cReceiveSbFile 0 pre k with phase := .idle } : Dev) =
+      { (abortPrefix d Spec.cReceiveSbFile 0 pre) with ncmd := d.ncmd + 1, pktCount := k } := by
+  cases d
+  simp only at h
+  subst h
+  simp [Dev.store, Dev.next, abortPrefix, Spec.cReceiveSbFile, Spec.cWriteMemory, Spec.cKeyProvisioning]
+
+theorem abortDev_kp (d : Dev) (h : d.phase = .idle) (pre : Bytes) (k : Nat) :
+    ({ Dev.store { d.next with kpTarget := (Spec.kpWriteKeyStore, 0), kpBuf := [] } Spec.cKeyProvisioning 0 pre k with
+        phase := .idle } : Dev) =
+      { (abortPrefix d Spec.cKeyProvisioning 0 pre) with
+          ncmd := d.ncmd + 1, pktCount := k, kpTarget := (Spec.kpWriteKeyStore, 0) } := by
+  cases d
+  simp only at h
+  subst h
+  simp [Dev.store, Dev.next, abortPrefix, Spec.cWriteMemory, Spec.cKeyProvisioning]
+
+/-- `dataOutCmd` against a device that aborts the data phase -/
+theorem dataOutCmd_abort {h : Host} {d : Dev} (hs : Synced h d) (hmp : 0 < d.maxPacket ∧ d.maxPacket < 65536)
+    (hmps : h.mps = some d.maxPacket)
+    (tag : Nat) (params : List Nat) (data : Bytes) (hwf : (⟨tag, Spec.flagHasDataPhase, params⟩ : CmdPkt).WF)
+    (d1 : Dev) (a k : Nat)
+    (hexec : d.exec ⟨tag, Spec.flagHasDataPhase, params⟩ = .fromHost d1 (genericResp 0 tag) a data.length 0)
+    (hid1 : d1.phase = .idle) (hmp1 : d1.maxPacket = d.maxPacket) (hab : d1.abortAfter = some k)
+    (hpc : d1.pktCount = 0) (him : d1.imageMode = false) (hk : k < (split d.maxPacket data).length)
+    (hmem : tag = Spec.cWriteMemory → a + data.length ≤ d1.mem.length) :
+    ∃ h3, dataOutCmd tag params data h = (specFail h.cfg.cmdExc Spec.stAbortDataPhase (.bool false), h3) ∧
+      h3.Is h Spec.stAbortDataPhase
+        { d1.store tag a ((split d.maxPacket data).take k).flatten k with phase := .idle } [] [] := by
+  have htag : tag < 4294967296 := by have := hwf.tag; simp at this; omega
+  have esplit := splitData_ok data h d.maxPacket hmps hmp.1
+  have hn0 : data.length ≠ 0 := by
+    have := split_ne_nil_of_lt hk
+    intro e; exact this (List.length_eq_zero_iff.mp e)
+  obtain ⟨h2, e2, hmid⟩ := processCmd_fromHost hs.is hs.opened _ hwf _ _ _ _ _ hexec hid1 _
+    (genericResp_parse 0 tag (by omega) htag) (genericResp_ne_nil _ _)
+    (by rw [genericResp_length]; omega)
+  rw [cmdResult_ok _ _ rfl] at e2
+  rw [if_neg hn0] at hmid
+  obtain ⟨h3, e3, hI3⟩ := sendData_abort hs.opened d.maxPacket hmp.1 hmp.2 d1 tag a k data htag hmp1 hab hpc him hk
+    hmem hmid
+  refine ⟨h3, ?_, hI3⟩
+  unfold dataOutCmd specFail
+  rw [bind_ok esplit, bind_ok e2]
+  simp only [if_true]
+  cases hce : h.cfg.cmdExc <;> rw [hce] at e3
+  · rw [bind_ok e3]; rfl
+  · rw [bind_err e3]; rfl
+
+set_option linter.unusedVariables false in
 /-- serial link: ABORT frame instead of the ACK of packet `k+1`; USB-HID: a zero-length report, noticed before the next
     packet (`check_errors=True`) or at the final read -/
 theorem abort_refines (h : Host) (d d' : Dev) (op : Op) (res : Except HErr Val) (st k : Nat)
@@ -18,6 +532,93 @@ theorem abort_refines (h : Host) (d d' : Dev) (op : Op) (res : Except HErr Val) 
     (hspec : specAbort h.cfg.cmdExc d k op = some (d', res, st)) :
     ∃ h', runOp op h = (res, h') ∧ Synced h' d' ∧ h'.status = st ∧ h'.cfg = h.cfg ∧ h'.mps = h.mps ∧
       h'.eda = (match op with | .receiveSbFile _ c => h.cfg.cmdExc && c | _ => false) := by
-  sorry
-
+  cases op with
+  | writeMemory a data m =>
+    obtain ⟨ha, hn, hm⟩ := hargs
+    have hm' := clampMemId_lt hm
+    have hwf : (⟨Spec.cWriteMemory, Spec.flagHasDataPhase, [a, data.length, clampMemId m]⟩ : CmdPkt).WF :=
+      wf_mk _ _ _ (by decide) (by decide) (by simp) (by intro v hv; simp at hv; rcases hv with rfl | rfl | rfl <;> assumption)
+    have hex := exec_writeMemory d hnf a data.length (clampMemId m)
+    simp only [specAbort] at hspec
+    split at hspec <;> rename_i hc
+    · simp only [Option.some.injEq, Prod.mk.injEq] at hspec
+      obtain ⟨rfl, rfl, rfl⟩ := hspec
+      rw [if_pos hc.1] at hex
+      obtain ⟨h3, e3, hI3⟩ := dataOutCmd_abort hs hmp hmps _ _ data hwf d.next a k hex rfl rfl hab rfl himg hc.2
+        (fun _ => hc.1)
+      rw [abortDev_write d hs.idle] at hI3
+      exact ⟨h3, e3, ⟨hI3.peer, hs.idle, hI3.rxB, hI3.rxR, by rw [hI3.opened, hs.opened]⟩, hI3.status, hI3.cfg, hI3.mps,
+        by rw [hI3.eda, heda]⟩
+    · simp at hspec
+  | kpWriteKeyStore data =>
+    have hn : data.length < 4294967296 := hargs
+    have hwf : (⟨Spec.cKeyProvisioning, Spec.flagHasDataPhase, [Spec.kpWriteKeyStore, 0, data.length]⟩ : CmdPkt).WF :=
+      wf_mk _ _ _ (by decide) (by decide) (by simp)
+        (by intro v hv; simp at hv; rcases hv with rfl | rfl | rfl <;> first | assumption | decide)
+    have hex := exec_kpData d hnf Spec.kpWriteKeyStore 0 data.length (Or.inr rfl)
+    simp only [specAbort] at hspec
+    split at hspec <;> rename_i hc
+    · simp only [Option.some.injEq, Prod.mk.injEq] at hspec
+      obtain ⟨rfl, rfl, rfl⟩ := hspec
+      obtain ⟨h3, e3, hI3⟩ := dataOutCmd_abort hs hmp hmps _ _ data hwf _ 0 k hex rfl rfl hab rfl himg hc
+        (fun e => absurd e (by decide))
+      rw [abortDev_kp d hs.idle] at hI3
+      exact ⟨h3, e3, ⟨hI3.peer, hs.idle, hI3.rxB, hI3.rxR, by rw [hI3.opened, hs.opened]⟩, hI3.status, hI3.cfg, hI3.mps,
+        by rw [hI3.eda, heda]⟩
+    · simp at hspec
+  | receiveSbFile data c =>
+    have hn : data.length < 4294967296 := hargs
+    have hwf : (⟨Spec.cReceiveSbFile, Spec.flagHasDataPhase, [data.length]⟩ : CmdPkt).WF :=
+      wf_mk _ _ _ (by decide) (by decide) (by simp) (by intro v hv; simp at hv; rcases hv with rfl; assumption)
+    have hex := exec_receiveSbFile d hnf data.length
+    have esplit := splitData_ok data h d.maxPacket hmps hmp.1
+    simp only [specAbort] at hspec
+    split at hspec <;> rename_i hc
+    · simp only [Option.some.injEq, Prod.mk.injEq] at hspec
+      obtain ⟨rfl, rfl, rfl⟩ := hspec
+      have hn0 : data.length ≠ 0 := by
+        have := split_ne_nil_of_lt hc
+        intro e; exact this (List.length_eq_zero_iff.mp e)
+      obtain ⟨h2, e2, hmid⟩ := processCmd_fromHost hs.is hs.opened _ hwf _ _ _ _ _ hex rfl _
+        (genericResp_parse 0 Spec.cReceiveSbFile (by omega) (by decide)) (genericResp_ne_nil _ _)
+        (by rw [genericResp_length]; omega)
+      rw [cmdResult_ok _ _ rfl] at e2
+      rw [if_neg hn0] at hmid
+      obtain ⟨h3, e3, hI3⟩ := sendData_abort (h0 := { h with eda := c }) hs.opened d.maxPacket hmp.1 hmp.2
+        { d.next with sb := [] } Spec.cReceiveSbFile 0 k data (by decide) rfl hab rfl himg hc
+        (fun e => absurd e (by decide)) (hmid.setEda c)
+      rw [abortDev_sb d hs.idle] at hI3
+      have hsync : ∀ g : Host, g.peer = h3.peer → g.rxB = h3.rxB → g.rxR = h3.rxR → g.opened = h3.opened →
+          Synced g { (abortPrefix d Spec.cReceiveSbFile 0 ((split d.maxPacket data).take k).flatten) with
+            ncmd := d.ncmd + 1, pktCount := k } := by
+        intro g h1 h2' h3' h4
+        exact ⟨by rw [h1, hI3.peer], hs.idle, by rw [h2', hI3.rxB], by rw [h3', hI3.rxR],
+          by rw [h4, hI3.opened]; exact hs.opened⟩
+      have hrun : runOp (.receiveSbFile data c) h = receiveSbFile data c h := rfl
+      by_cases hce : h.cfg.cmdExc = true
+      · have e3' : sendData (split d.maxPacket data) { h2 with eda := c } =
+            (.error (.cmd Spec.stAbortDataPhase), h3) := by
+          rw [e3]; show (if h.cfg.cmdExc = true then _ else _, h3) = _; rw [if_pos hce]
+        refine ⟨h3, ?_, hsync h3 rfl rfl rfl rfl, hI3.status, hI3.cfg, hI3.mps, ?_⟩
+        · rw [hrun]
+          unfold receiveSbFile specFail
+          rw [bind_ok esplit, bind_ok e2]
+          simp only [if_true]
+          rw [bind_ok (modify_run _ _), bind_err e3', if_pos hce]
+        · show h3.eda = (h.cfg.cmdExc && c)
+          rw [hI3.eda, hce]; simp
+      · have e3' : sendData (split d.maxPacket data) { h2 with eda := c } = (.ok false, h3) := by
+          rw [e3]; show (if h.cfg.cmdExc = true then _ else _, h3) = _; rw [if_neg hce]
+        refine ⟨{ h3 with eda := false }, ?_, hsync _ rfl rfl rfl rfl, hI3.status, hI3.cfg, hI3.mps, ?_⟩
+        · rw [hrun]
+          unfold receiveSbFile specFail
+          rw [bind_ok esplit, bind_ok e2]
+          simp only [if_true]
+          rw [bind_ok (modify_run _ _), bind_ok e3', bind_ok (modify_run _ _), if_neg hce]
+          rfl
+        · show false = (h.cfg.cmdExc && c)
+          have : h.cfg.cmdExc = false := by simpa using hce
+          rw [this]; rfl
+    · simp at hspec
+  | _ => simp [specAbort] at hspec
 end SpsdkVerif.Mboot
